@@ -92,3 +92,6 @@ Definition lits_case (prog : list ctree) : list (list Z * list (Z * bool)) :=
 (* everything the check needs about one program in one evaluation *)
 Definition all_case (prog : list ctree) (d : defaults) (steps : list stim) :=
   (cond_case prog d steps, spec_case prog d steps, struct_case prog d).
+
+Definition all_case4 (prog : list ctree) (d : defaults) (steps : list stim) :=
+  (cond_case prog d steps, spec_case prog d steps, struct_case prog d, lits_case prog).
